@@ -127,4 +127,10 @@ def plan(ctx):
         qs.append(vf.Query('window/' + g['tag'], unit, hw, unwind=NA + 4, mem_gb=4 if heavy else 2,
                            bounds={'bytes': NA, 'rules': rules, 'buffer': 'logical end inside a larger object (+3 bytes)'}, validate_iters=5000,
                            note='non-interference of bytes beyond the logical end for %s' % ', '.join(rules)))
+    # http chunk matchers (hand-written match functions that take the announced size as a state; the size is any 64-bit value)
+    hu = ctx.unit('c03_http', cpp=os.path.join(vf.VERIF, 'harness', 'c02_http.cpp'))
+    for sel in ('chunk_size', 'chunk_data'):
+        qs.append(vf.Query('http/' + sel, hu, os.path.join(vf.VERIF, 'harness', 'c02_http.c'), defines={'NA': 4}, cbmc_defines={'VF_SPLIT': 1, 'V_' + sel: 1},
+                           unwind=7, mem_gb=4, bounds={'bytes': 4, 'rule': 'http::' + sel, 'announced_size': 'any 64-bit value'},
+                           note='http::%s on an exact-size buffer: cursor stays inside the input' % sel))
     return qs
